@@ -110,8 +110,20 @@ def local_bindings(fn: ast.FunctionDef) -> List[Tuple[str, str]]:
             # position of the name among the store targets of that statement (tuple unpacking)
             tg = [x.id for x in ast.walk(st) if isinstance(x, ast.Name) and isinstance(x.ctx, ast.Store)]
             pos = tg.index(n.id) if n.id in tg else 0
-            stores.append((n.lineno, n.col_offset, n.id, st, f"{type(st).__name__}#{pos}"))
-    stores.sort(key=lambda t: (t[0], t[1]))
+            stores.append((n.lineno, n.col_offset, n.id, st, f"{type(st).__name__}#{pos}", id(n)))
+    if getattr(fn, "_verif_spliced", False):
+        # statements spliced in from a helper keep the helper's line numbers: order by position in the tree instead
+        order: Dict[int, int] = {}
+
+        def dfs(node):
+            order[id(node)] = len(order)
+            for ch in ast.iter_child_nodes(node):
+                dfs(ch)
+        dfs(fn)
+        stores.sort(key=lambda t: order[t[5]])
+    else:
+        stores.sort(key=lambda t: (t[0], t[1]))
+    stores = [t[:5] for t in stores]
     seen: Set[str] = set()
     out: List[Tuple[str, str]] = []
     for _, _, name, st, role in stores:
@@ -208,7 +220,10 @@ def canonicalise(dotted: str, tree: ast.Module, reference: Optional[dict] = None
         if ref is None:
             continue
         nw = while_to_for(fn) + enumerate_to_range(fn)
-        ni = ifexp_to_if(fn, set(keep_ifexp.get(q, [])))
+        nw += sink_final_return(fn, refmod.get("<returns>", {}).get(q, 0))
+        if refmod.get("<lambdas>", {}).get(q):
+            nw += def_to_lambda(fn, set(refmod.get("<nested>", {}).get(q, [])))
+        ni = ifexp_to_if(fn, set(keep_ifexp.get(q, []))) + if_to_ifexp(fn, set(keep_ifexp.get(q, [])))
         ni += whole_array_rhs(fn) + nonzero_to_where(fn)
         ni += unguard_continue(fn)
         if nw or ni:
@@ -217,14 +232,27 @@ def canonicalise(dotted: str, tree: ast.Module, reference: Optional[dict] = None
         if m:
             _Rename(m).visit(fn)
             applied.setdefault(q, {}).update(m)
-        tmp = inline_new_temporaries(fn, {r[0] for r in ref})
-        if tmp:
+        nrc = range_to_counter(fn, refmod.get("<counterloops>", {}).get(q, []))
+        if nrc:
+            applied.setdefault(q, {})[f"<{nrc} range loops -> element loops with a counter>"] = ""
+        nflip = orient_compares(fn, set(refmod.get("<compares>", {}).get(q, [])))
+        if nflip:
+            applied.setdefault(q, {})[f"<{nflip} comparisons re-oriented>"] = ""
+        # one temporary at a time: a definition that becomes equal to a reference definition once its operand is substituted is a renamed
+        # reference local (aligned by the next rename_map), not a new temporary
+        for _round in range(40):
+            tmp = inline_new_temporaries(fn, {r[0] for r in ref}, limit=1)
+            if not tmp:
+                if loop_to_listcomp(fn, {r[0] for r in ref}):
+                    applied.setdefault(q, {})["<list-building loop -> comprehension>"] = ""
+                    continue
+                break
             applied.setdefault(q, {}).update({f"<inlined temporary {t}>": "" for t in tmp})
-            # names freed by the substitution may now align
             m2 = rename_map(fn, ref) if ref else {}
             if m2:
                 _Rename(m2).visit(fn)
                 applied[q].update(m2)
+            orient_compares(fn, set(refmod.get("<compares>", {}).get(q, [])))
     return applied
 
 
@@ -305,7 +333,7 @@ def _blocks(fn: ast.AST):
                 yield h, h.body
 
 
-def inline_new_temporaries(fn: ast.FunctionDef, ref_names: Set[str]) -> List[str]:
+def inline_new_temporaries(fn: ast.FunctionDef, ref_names: Set[str], limit: int = 0) -> List[str]:
     """Forward-substitute locals the reference function does not have: `t = <pure expr>` defined once, read only later in the same
     block (or blocks nested in it), with no operand of the expression re-assigned or stored into in between."""
     done: List[str] = []
@@ -330,11 +358,42 @@ def inline_new_temporaries(fn: ast.FunctionDef, ref_names: Set[str]) -> List[str
                 reads_rest = [n for r in rest for n in ast.walk(r) if isinstance(n, ast.Name) and n.id == t and isinstance(n.ctx, ast.Load)]
                 if len(reads_all) != len(reads_rest) or not reads_all:
                     continue
+                fresh_call = isinstance(st.value, ast.Call) and ast.unparse(st.value.func).split(".")[-1] in (
+                    "zeros", "ones", "empty", "full", "copy", "array", "zeros_like", "ones_like", "empty_like", "full_like", "arange", "astype", "list", "dict", "set",
+                    "DataArray", "Dataset", "asarray", "ascontiguousarray")
+                if fresh_call:
+                    # a freshly allocated array has identity too: one read, not re-evaluated per iteration of a loop below the definition
+                    def _in_loop(target) -> bool:
+                        for r in rest:
+                            for lp in ast.walk(r):
+                                if isinstance(lp, (ast.For, ast.While, ast.ListComp, ast.SetComp, ast.DictComp, ast.GeneratorExp, ast.Lambda, ast.FunctionDef)) and \
+                                        any(x is target for x in ast.walk(lp)):
+                                    return True
+                        return False
+                    if len(reads_rest) != 1 or _in_loop(reads_rest[0]):
+                        continue
+                if isinstance(st.value, (ast.List, ast.Dict, ast.Set, ast.ListComp, ast.DictComp, ast.SetComp)):
+                    # a mutable object has identity: substituting the literal is sound only where each read merely unpacks it (`*t`, `**t`), or for
+                    # a single read that is not the receiver of a method call / subscript (which could mutate or alias it)
+                    parent_of = {id(ch): p_ for r in rest for p_ in ast.walk(r) for ch in ast.iter_child_nodes(p_)}
+                    unpack_only = all(isinstance(parent_of.get(id(n)), ast.Starred) or (isinstance(parent_of.get(id(n)), ast.keyword) and parent_of[id(n)].arg is None)
+                                      for n in reads_rest)
+                    single_plain = len(reads_rest) == 1 and not isinstance(parent_of.get(id(reads_rest[0])), (ast.Attribute, ast.Subscript)) and not any(
+                        isinstance(lp, (ast.For, ast.While, ast.ListComp, ast.SetComp, ast.DictComp, ast.GeneratorExp, ast.Lambda, ast.FunctionDef))
+                        and any(x is reads_rest[0] for x in ast.walk(lp)) for r in rest for lp in ast.walk(r))
+                    if not (unpack_only or single_plain):
+                        continue
                 if t in _stores_in(rest) - {t} or any(isinstance(n, (ast.Subscript, ast.Attribute)) and isinstance(n.ctx, ast.Store) and isinstance(n.value, ast.Name) and n.value.id == t
                                                      for r in rest for n in ast.walk(r)):
                     continue
                 free = {n.id for n in ast.walk(st.value) if isinstance(n, ast.Name)}
-                if free & _stores_in(rest):
+                # operands read only for their shape (`a.shape[k]`, `a.size`, `len(a)`) are not changed by element stores, only by re-binding
+                shape_reads = {id(n.value) for n in ast.walk(st.value) if isinstance(n, ast.Attribute) and n.attr in ("shape", "size", "ndim", "dtype") and isinstance(n.value, ast.Name)}
+                shape_reads |= {id(n.args[0]) for n in ast.walk(st.value) if isinstance(n, ast.Call) and ast.unparse(n.func) == "len" and len(n.args) == 1 and isinstance(n.args[0], ast.Name)}
+                shape_only = {n.id for n in ast.walk(st.value) if isinstance(n, ast.Name) and id(n) in shape_reads} - \
+                    {n.id for n in ast.walk(st.value) if isinstance(n, ast.Name) and id(n) not in shape_reads}
+                rebinds = {n.id for r in rest for n in ast.walk(r) if isinstance(n, ast.Name) and isinstance(n.ctx, (ast.Store, ast.Del))}
+                if (free - shape_only) & _stores_in(rest) or shape_only & rebinds:
                     continue
                 # a use inside a nested function / lambda / comprehension would be evaluated later or repeatedly: only plain reads
                 nested_ok = True
@@ -352,10 +411,11 @@ def inline_new_temporaries(fn: ast.FunctionDef, ref_names: Set[str]) -> List[str
                 if not block:
                     block.append(ast.copy_location(ast.Pass(), st))
                 done.append(t)
-                changed = True
+                changed = not (limit and len(done) >= limit)
                 break
-            if changed:
-                break
+            else:
+                continue
+            break
     if done:
         _expand_star_dicts(fn)
         ast.fix_missing_locations(fn)
@@ -366,6 +426,14 @@ def _expand_star_dicts(fn: ast.AST):
     """f(a, **{'k': v, ...}) -> f(a, k=v, ...) for literal dicts with string keys (after a kwargs temporary was inlined)."""
     for c in ast.walk(fn):
         if isinstance(c, ast.Call):
+            if any(isinstance(a, ast.Starred) and isinstance(a.value, (ast.Tuple, ast.List)) for a in c.args):
+                flat = []
+                for a in c.args:                       # f(*(a, b), c) -> f(a, b, c)
+                    if isinstance(a, ast.Starred) and isinstance(a.value, (ast.Tuple, ast.List)):
+                        flat += list(a.value.elts)
+                    else:
+                        flat.append(a)
+                c.args = flat
             new = []
             for k in c.keywords:
                 if k.arg is None and isinstance(k.value, ast.Dict) and all(isinstance(x, ast.Constant) and isinstance(x.value, str) for x in k.value.keys):
@@ -458,6 +526,35 @@ def _always_returns(stmts) -> bool:
     return False
 
 
+def beta_reduce(root: ast.AST) -> int:
+    """`(lambda p: E)(a)` -> `E[p := a]` when p is read exactly once in E, outside any nested function or comprehension, or a is a name/constant."""
+    import copy
+    n = 0
+
+    class T(ast.NodeTransformer):
+        def visit_Call(self, node):
+            self.generic_visit(node)
+            f = node.func
+            if not (isinstance(f, ast.Lambda) and not node.keywords and len(node.args) == len(f.args.args) and not f.args.vararg and not f.args.kwarg
+                    and not f.args.defaults and not f.args.kwonlyargs and not any(isinstance(a, ast.Starred) for a in node.args)):
+                return node
+            params = [a.arg for a in f.args.args]
+            m = {}
+            for pn, av in zip(params, node.args):
+                reads = [x for x in ast.walk(f.body) if isinstance(x, ast.Name) and x.id == pn]
+                nested = [x for y in ast.walk(f.body) if isinstance(y, (ast.Lambda, ast.ListComp, ast.SetComp, ast.DictComp, ast.GeneratorExp)) for x in ast.walk(y)
+                          if isinstance(x, ast.Name) and x.id == pn]
+                if isinstance(av, (ast.Name, ast.Constant)) or (len(reads) == 1 and not nested and (len(params) == 1 or _is_pure(av))):
+                    m[pn] = av
+                else:
+                    return node
+            nonlocal n
+            n += 1
+            return ast.copy_location(_Subst(m).visit(copy.deepcopy(f.body)), node)
+    T().visit(root)
+    return n
+
+
 def inline_new_helpers(tree: ast.Module, ref_funcs: Set[str]) -> List[str]:
     """Calls from reference functions to functions the reference tree does not have are replaced by the helper's body."""
     import copy
@@ -503,6 +600,47 @@ def inline_new_helpers(tree: ast.Module, ref_funcs: Set[str]) -> List[str]:
                         whole = (isinstance(st, (ast.Assign, ast.Return, ast.Expr)) and st.value is c
                                  and (not isinstance(st, ast.Assign) or (len(st.targets) == 1 and _is_pure(st.targets[0]))))
                         rt = _return_tree(h) if whole else None
+                        if rt is None and not whole and isinstance(st, (ast.Assign, ast.Return, ast.Expr)) and _return_tree(h) is not None:
+                            # hoist: `S[h(a)]` -> `t = h(a); S[t]` when the helper has no effects and everything else in S is pure, so that
+                            # evaluating the call first changes nothing; the next round inlines `t = h(a)`
+                            hb = [x_ for x_ in h.body if not (isinstance(x_, ast.Expr) and isinstance(x_.value, ast.Constant))]
+                            effect_free = all(_is_pure(x_) for x_ in hb) and not any(
+                                isinstance(n_, (ast.Subscript, ast.Attribute)) and isinstance(n_.ctx, (ast.Store, ast.Del)) for x_ in hb for n_ in ast.walk(x_))
+                            par0: Dict[int, ast.AST] = {}
+                            for p_ in ast.walk(st):
+                                for ch in ast.iter_child_nodes(p_):
+                                    par0[id(ch)] = p_
+                            cur0, cond0 = c, False
+                            while id(cur0) in par0:
+                                up0 = par0[id(cur0)]
+                                if isinstance(up0, (ast.Lambda, ast.ListComp, ast.SetComp, ast.DictComp, ast.GeneratorExp, ast.IfExp)) or \
+                                        (isinstance(up0, ast.BoolOp) and cur0 is not up0.values[0]):
+                                    cond0 = True
+                                cur0 = up0
+                            tname = h.name.strip("_") + "_value"
+                            names_here = {n_.id for n_ in ast.walk(fn) if isinstance(n_, ast.Name)} | _params(fn)
+                            if effect_free and not cond0 and tname not in names_here and st.value is not None:
+                                class _Hoist(ast.NodeTransformer):
+                                    def visit_Call(self, node):
+                                        if node is c:
+                                            return ast.copy_location(ast.Name(id=tname, ctx=ast.Load()), node)
+                                        return self.generic_visit(node)
+                                probe = copy.deepcopy(st)
+                                # purity of the remainder: replace the call by a constant in a copy
+                                idx_c = [k_ for k_, n_ in enumerate(ast.walk(st)) if n_ is c][0]
+                                pc = list(ast.walk(probe))[idx_c]
+
+                                class _Blank(ast.NodeTransformer):
+                                    def visit_Call(self, node):
+                                        if node is pc:
+                                            return ast.Constant(value=0)
+                                        return self.generic_visit(node)
+                                probe = _Blank().visit(probe)
+                                if _is_pure(probe.value) and (not isinstance(st, ast.Assign) or all(_is_pure(t_) for t_ in st.targets)):
+                                    block[i:i + 1] = [ast.copy_location(ast.Assign(targets=[ast.Name(id=tname, ctx=ast.Store())], value=c), st), _Hoist().visit(st)]
+                                    ast.fix_missing_locations(fn)
+                                    hit = True
+                                    break
                         if rt is None:
                             continue
                         sh = (rt, None)
@@ -586,6 +724,14 @@ def inline_new_helpers(tree: ast.Module, ref_funcs: Set[str]) -> List[str]:
                                       if isinstance(n, ast.Name) and n.id == pn and isinstance(n.ctx, ast.Load))
                         rebound = any(isinstance(n, ast.Name) and n.id == pn and isinstance(n.ctx, ast.Store) for s_ in hbody for n in ast.walk(s_))
                         simple = isinstance(av, (ast.Name, ast.Constant)) or (isinstance(av, ast.Attribute) and isinstance(av.value, ast.Name))
+                        if isinstance(av, ast.Lambda) and not hbody:
+                            # a function literal is a value without effects; substituting it is safe when none of its free names is captured by a
+                            # binder of the helper (parameters of nested lambdas, comprehension variables)
+                            lam_bound = {a_.arg for a_ in av.args.args}
+                            lam_free = {n_.id for n_ in ast.walk(av.body) if isinstance(n_, ast.Name)} - lam_bound
+                            binders = {a_.arg for x_ in ast.walk(ast.Expr(value=hret)) if isinstance(x_, ast.Lambda) for a_ in x_.args.args} if hret is not None else set()
+                            binders |= {n_.id for x_ in (ast.walk(ast.Expr(value=hret)) if hret is not None else []) if isinstance(x_, ast.comprehension) for n_ in ast.walk(x_.target) if isinstance(n_, ast.Name)}
+                            simple = not (lam_free & binders)
                         if not rebound and (simple or (not hbody and _is_pure(av))):
                             subst[pn] = av
                         else:
@@ -649,10 +795,13 @@ def inline_new_helpers(tree: ast.Module, ref_funcs: Set[str]) -> List[str]:
                     new_st = [x_ for x_ in new_st if not (isinstance(x_, ast.Assign) and len(x_.targets) == 1 and isinstance(x_.targets[0], ast.Name)
                                                           and isinstance(x_.value, ast.Name) and x_.value.id == x_.targets[0].id)]
                     block[i:i + 1] = pre + body + new_st
+                    for x_ in block:
+                        beta_reduce(x_)
                     if not block:
                         block.append(ast.copy_location(ast.Pass(), st))
                     ast.fix_missing_locations(fn)
                     done.append(f"{q} <- {h.name}")
+                    fn._verif_spliced = True
                     hit = True
                     break
                 if hit:
@@ -667,6 +816,106 @@ def inline_new_helpers(tree: ast.Module, ref_funcs: Set[str]) -> List[str]:
             for key, (h, _) in helpers.items():
                 if h.name == nm:
                     h._verif_inlined = True
+    return done
+
+
+def adopt_imported_helpers(modules: Dict[str, ast.Module], reference: dict) -> List[str]:
+    """A new (non-reference) module-level function that a module imports from a sibling module is copied into the importing module, its free
+    names re-bound through synthetic imports, and the import dropped: `inline_new_helpers` then treats it like a helper extracted in place.
+    Where a function lives changes nothing observable; the copy keeps the decorators."""
+    import copy
+    done: List[str] = []
+    tables = {d: import_table(d, t, bool(getattr(t, "_verif_is_pkg", False))) for d, t in modules.items()}
+    tops = {d: {n.name: n for n in t.body if isinstance(n, ast.FunctionDef)} for d, t in modules.items()}
+    adopted_from: Dict[Tuple[str, str], int] = {}
+    for dotted, tree in modules.items():
+        refmod = reference.get(dotted, {})
+        if not refmod:
+            continue
+        ref_imports = refmod.get("<imports>", {})
+        is_pkg = bool(getattr(tree, "_verif_is_pkg", False))
+        if is_pkg:
+            continue
+        for st in list(tree.body):
+            if not isinstance(st, ast.ImportFrom):
+                continue
+            home = _abs_module(dotted, st.level, st.module) if st.level else (st.module or "")
+            if home not in modules or home == dotted:
+                continue
+            home_ref = {k for k in reference.get(home, {}) if not k.startswith("<")}
+            for al in list(st.names):
+                loc = al.asname or al.name
+                h = tops[home].get(al.name)
+                if h is None or al.name in home_ref or loc in ref_imports or loc in tops[dotted]:
+                    continue
+                hcopy = copy.deepcopy(h)
+                hcopy.name = loc
+                # free names of the helper, resolved in its home module
+                bound = {a.arg for f_ in ast.walk(hcopy) if isinstance(f_, (ast.FunctionDef, ast.Lambda)) for a in f_.args.args + f_.args.kwonlyargs}
+                bound |= {n.id for n in ast.walk(hcopy) if isinstance(n, ast.Name) and isinstance(n.ctx, ast.Store)}
+                free = {n.id for n in ast.walk(hcopy) if isinstance(n, ast.Name) and isinstance(n.ctx, ast.Load)} - bound
+                here = import_table(dotted, tree, is_pkg)
+                here_names = set(here) | set(tops[dotted]) | {n.id for n in ast.walk(tree) if isinstance(n, ast.Name) and isinstance(n.ctx, ast.Store)}
+                extra: List[ast.stmt] = []
+                ren: Dict[str, str] = {}
+                ok = True
+                for nm in sorted(free):
+                    if nm in tables[home]:
+                        q = tables[home][nm]
+                    elif nm in tops[home] or any(isinstance(x, ast.Assign) and any(isinstance(t_, ast.Name) and t_.id == nm for t_ in x.targets) for x in modules[home].body):
+                        q = f"{home}.{nm}"
+                    else:
+                        continue      # builtin
+                    same = [l_ for l_, q_ in here.items() if q_ == q]
+                    if same:
+                        if same[0] != nm:
+                            ren[nm] = same[0]
+                        continue
+                    tgt = nm
+                    if tgt in here_names:
+                        k = 1
+                        while f"{nm}_{k}" in here_names:
+                            k += 1
+                        tgt = f"{nm}_{k}"
+                        ren[nm] = tgt
+                    here_names.add(tgt)
+                    if "." in q:
+                        mod_, name_ = q.rsplit(".", 1)
+                        extra.append(ast.ImportFrom(module=mod_, names=[ast.alias(name=name_, asname=None if name_ == tgt else tgt)], level=0))
+                    else:
+                        extra.append(ast.Import(names=[ast.alias(name=q, asname=None if q == tgt else tgt)]))
+                    here[tgt] = q
+                if not ok:
+                    continue
+                if ren:
+                    class _R(ast.NodeTransformer):
+                        def visit_Name(self, node):
+                            if isinstance(node.ctx, ast.Load) and node.id in ren:
+                                node.id = ren[node.id]
+                            return node
+                    _R().visit(hcopy)
+                st.names.remove(al)
+                pos = max((i for i, x in enumerate(tree.body) if isinstance(x, (ast.Import, ast.ImportFrom))), default=-1) + 1
+                tree.body[pos:pos] = extra + [hcopy]
+                tops[dotted][loc] = hcopy
+                adopted_from[(home, al.name)] = adopted_from.get((home, al.name), 0) + 1
+                done.append(f"{dotted} adopts {home}.{al.name}")
+            if not st.names:
+                tree.body.remove(st)
+        ast.fix_missing_locations(tree)
+    # a helper that is now used only through its adopted copies is judged in its callers' context
+    for (home, name), _n in adopted_from.items():
+        used = False
+        for d, t in modules.items():
+            for n in ast.walk(t):
+                if isinstance(n, ast.ImportFrom):
+                    hm = _abs_module(d, n.level, n.module) if n.level else (n.module or "")
+                    if hm == home and any(a.name == name for a in n.names):
+                        used = True
+            if d == home and any(isinstance(c, ast.Call) and isinstance(c.func, ast.Name) and c.func.id == name for c in ast.walk(t)):
+                used = True
+        if not used:
+            tops[home][name]._verif_inlined = True
     return done
 
 
@@ -771,6 +1020,220 @@ def ifexp_to_if(fn: ast.FunctionDef, keep_targets: Set[str]) -> int:
                 block[i] = ast.copy_location(ast.If(test=st.value.test, body=[a], orelse=[b]), st)
                 ast.fix_missing_locations(block[i])
                 n += 1
+    return n
+
+
+def def_to_lambda(fn: ast.FunctionDef, ref_nested: Set[str]) -> int:
+    """A nested `def f(a): return E` that the reference does not have is the reference's `f = lambda a: E` (same closure, same value)."""
+    n = 0
+    for owner, block in _blocks(fn):
+        for i, st in enumerate(block):
+            if not isinstance(st, ast.FunctionDef) or st.name in ref_nested or st.decorator_list:
+                continue
+            a = st.args
+            if a.vararg or a.kwarg or a.kwonlyargs or a.posonlyargs or a.defaults:
+                continue
+            body = list(st.body)
+            if body and isinstance(body[0], ast.Expr) and isinstance(body[0].value, ast.Constant) and isinstance(body[0].value.value, str):
+                body = body[1:]
+            if len(body) != 1 or not isinstance(body[0], ast.Return) or body[0].value is None:
+                continue
+            lam = ast.Lambda(args=ast.arguments(posonlyargs=[], args=[ast.arg(arg=x.arg) for x in a.args], kwonlyargs=[], kw_defaults=[], defaults=[]), body=body[0].value)
+            block[i] = ast.copy_location(ast.Assign(targets=[ast.Name(id=st.name, ctx=ast.Store())], value=lam), st)
+            n += 1
+    if n:
+        ast.fix_missing_locations(fn)
+    return n
+
+
+def _own_returns(fn: ast.FunctionDef) -> int:
+    """Return statements of `fn` itself (not of functions nested in it)."""
+    n = 0
+    stack = list(fn.body)
+    while stack:
+        x = stack.pop()
+        if isinstance(x, (ast.FunctionDef, ast.Lambda, ast.ClassDef)):
+            continue
+        if isinstance(x, ast.Return):
+            n += 1
+        stack.extend(ast.iter_child_nodes(x))
+    return n
+
+
+def sink_final_return(fn: ast.FunctionDef, ref_returns: int) -> int:
+    """`if c: A else: B` followed by the function's final `return E` is `if c: A; return E else: B; return E` (tail duplication, always an
+    equivalence); applied when the reference function has more return statements than this one, i.e. a single-exit rewrite of it."""
+    import copy
+    cur = _own_returns(fn)
+    if cur >= ref_returns or len(fn.body) < 2:
+        return 0
+    last, prev = fn.body[-1], fn.body[-2]
+    if not (isinstance(last, ast.Return) and isinstance(prev, ast.If)):
+        return 0
+
+    def push(block: List[ast.stmt]) -> List[ast.stmt]:
+        if block and _ends_in_exit_stmt(block[-1]):
+            return block
+        if block and isinstance(block[-1], ast.If):
+            tail = block[-1]
+            tail.body = push(tail.body)
+            tail.orelse = push(tail.orelse)
+            return block
+        return block + [copy.deepcopy(last)]
+    prev.body = push(prev.body)
+    prev.orelse = push(prev.orelse)
+    fn.body.pop()
+    ast.fix_missing_locations(fn)
+    return 1
+
+
+def _ends_in_exit_stmt(st: ast.stmt) -> bool:
+    return isinstance(st, (ast.Return, ast.Raise, ast.Continue, ast.Break))
+
+
+def counter_loops(fn: ast.FunctionDef) -> List[List[str]]:
+    """[[counter, array, element variable]] for `c = 0; for e in A: ...; c += 1` loops (the position counter of an element loop)."""
+    out: List[List[str]] = []
+    for owner, block in _blocks(fn):
+        for i, st in enumerate(block):
+            if not (isinstance(st, ast.For) and isinstance(st.target, ast.Name) and isinstance(st.iter, ast.Name) and st.body and not st.orelse):
+                continue
+            last = st.body[-1]
+            if not (isinstance(last, ast.AugAssign) and isinstance(last.op, ast.Add) and isinstance(last.target, ast.Name)
+                    and isinstance(last.value, ast.Constant) and last.value.value == 1):
+                continue
+            c = last.target.id
+            init = [b for b in block[:i] if isinstance(b, ast.Assign) and len(b.targets) == 1 and isinstance(b.targets[0], ast.Name) and b.targets[0].id == c]
+            if init and isinstance(init[-1].value, ast.Constant) and init[-1].value.value == 0:
+                out.append([c, st.iter.id, st.target.id])
+    return out
+
+
+def range_to_counter(fn: ast.FunctionDef, ref_loops: List[List[str]]) -> int:
+    """`for c in range(A.shape[0]): ... A[c] ...` where the reference has `c = 0; for e in A: ... e ...; c += 1`: written the reference's way.
+    Side conditions: c and A are not re-bound in the body, no `continue` skips the increment, c is dead after the loop, e is unused."""
+    n = 0
+    for owner, block in _blocks(fn):
+        for i, st in enumerate(block):
+            if not (isinstance(st, ast.For) and isinstance(st.target, ast.Name) and not st.orelse and isinstance(st.iter, ast.Call)
+                    and ast.unparse(st.iter.func) == "range" and len(st.iter.args) == 1 and not st.iter.keywords):
+                continue
+            c = st.target.id
+            bound = ast.unparse(st.iter.args[0])
+            for rc, ra, re_ in ref_loops:
+                if rc != c or bound not in (f"{ra}.shape[0]", f"len({ra})"):
+                    continue
+                names = {x.id for x in ast.walk(fn) if isinstance(x, ast.Name)} | _params(fn)
+                if re_ in names:
+                    continue
+                body_stores = {x.id for b in st.body for x in ast.walk(b) if isinstance(x, ast.Name) and isinstance(x.ctx, (ast.Store, ast.Del))}
+                if c in body_stores or ra in body_stores:
+                    continue
+                if any(isinstance(x, ast.Continue) for b in st.body for x in ast.walk(b)):
+                    continue
+                # c dead after the loop: the next mention in this block is a plain re-assignment; no mention in enclosing later code otherwise
+                dead = None
+                for later in block[i + 1:]:
+                    occ = [x for x in ast.walk(later) if isinstance(x, ast.Name) and x.id == c]
+                    if occ:
+                        dead = (isinstance(later, ast.Assign) and len(later.targets) == 1 and isinstance(later.targets[0], ast.Name) and later.targets[0].id == c
+                                and not any(isinstance(x, ast.Name) and x.id == c for x in ast.walk(later.value)))
+                        break
+                if dead is None:
+                    dead = owner is fn
+                if not dead:
+                    continue
+                # loads of A[c] that precede every store into A within the iteration read the element the loop variable holds
+                def is_elem(x):
+                    return (isinstance(x, ast.Subscript) and isinstance(x.ctx, ast.Load) and isinstance(x.value, ast.Name) and x.value.id == ra
+                            and isinstance(x.slice, ast.Name) and x.slice.id == c)
+
+                class _E(ast.NodeTransformer):
+                    def visit_Subscript(self, node):
+                        if is_elem(node):
+                            return ast.copy_location(ast.Name(id=re_, ctx=ast.Load()), node)
+                        return self.generic_visit(node)
+                for k, b in enumerate(st.body):
+                    if ra in _stores_in([b]):
+                        if isinstance(b, ast.If) and ra not in _stores_in([ast.Expr(value=b.test)]):
+                            b.test = _E().visit(b.test)
+                        break
+                    st.body[k] = _E().visit(b)
+                st.target = ast.Name(id=re_, ctx=ast.Store())
+                st.iter = ast.Name(id=ra, ctx=ast.Load())
+                st.body.append(ast.copy_location(ast.AugAssign(target=ast.Name(id=c, ctx=ast.Store()), op=ast.Add(), value=ast.Constant(value=1)), st.body[-1]))
+                block.insert(i, ast.copy_location(ast.Assign(targets=[ast.Name(id=c, ctx=ast.Store())], value=ast.Constant(value=0)), st))
+                ast.fix_missing_locations(fn)
+                n += 1
+                return n + range_to_counter(fn, [l for l in ref_loops if l != [rc, ra, re_]])
+    return n
+
+
+_MIRROR = {ast.Lt: ast.Gt, ast.Gt: ast.Lt, ast.LtE: ast.GtE, ast.GtE: ast.LtE, ast.Eq: ast.Eq, ast.NotEq: ast.NotEq}
+
+
+def orient_compares(fn: ast.FunctionDef, ref_compares: Set[str]) -> int:
+    """`b > a` where the reference writes `a < b` (both operands free of effects) is written the reference's way."""
+    n = 0
+    for c in ast.walk(fn):
+        if not (isinstance(c, ast.Compare) and len(c.ops) == 1 and type(c.ops[0]) in _MIRROR):
+            continue
+        if ast.unparse(c) in ref_compares:
+            continue
+        if not (_is_pure(c.left) and _is_pure(c.comparators[0])):
+            continue
+        flipped = ast.Compare(left=c.comparators[0], ops=[_MIRROR[type(c.ops[0])]()], comparators=[c.left])
+        if ast.unparse(flipped) in ref_compares:
+            c.left, c.ops, c.comparators = flipped.left, flipped.ops, flipped.comparators
+            n += 1
+    return n
+
+
+def loop_to_listcomp(fn: ast.FunctionDef, ref_names: Set[str]) -> int:
+    """`L = []; for v in IT: L.append(E)` -> `L = [E for v in IT]` for a list L the reference does not have (v unused after the loop)."""
+    for owner, block in _blocks(fn):
+        for i, st in enumerate(block[:-1]):
+            if not (isinstance(st, ast.Assign) and len(st.targets) == 1 and isinstance(st.targets[0], ast.Name) and isinstance(st.value, ast.List) and not st.value.elts):
+                continue
+            L = st.targets[0].id
+            loop = block[i + 1]
+            if L in ref_names or not (isinstance(loop, ast.For) and not loop.orelse and len(loop.body) == 1 and isinstance(loop.target, ast.Name)):
+                continue
+            b = loop.body[0]
+            if not (isinstance(b, ast.Expr) and isinstance(b.value, ast.Call) and ast.unparse(b.value.func) == f"{L}.append" and len(b.value.args) == 1 and not b.value.keywords):
+                continue
+            E = b.value.args[0]
+            v = loop.target.id
+            if any(isinstance(x, ast.Name) and x.id == L for x in list(ast.walk(E)) + list(ast.walk(loop.iter))):
+                continue
+            if any(isinstance(x, ast.Name) and x.id == v for later in block[i + 2:] for x in ast.walk(later)):
+                continue
+            if sum(1 for x in ast.walk(fn) if isinstance(x, ast.Name) and x.id == L and isinstance(x.ctx, ast.Store)) != 1:
+                continue
+            st.value = ast.ListComp(elt=E, generators=[ast.comprehension(target=ast.Name(id=v, ctx=ast.Store()), iter=loop.iter, ifs=[], is_async=0)])
+            del block[i + 1]
+            ast.fix_missing_locations(fn)
+            return 1
+    return 0
+
+
+def if_to_ifexp(fn: ast.FunctionDef, targets: Set[str]) -> int:
+    """`if T: x = A else: x = B` -> `x = A if T else B` for the targets the reference assigns through a conditional expression."""
+    n = 0
+    for owner, block in _blocks(fn):
+        for i, st in enumerate(block):
+            if not (isinstance(st, ast.If) and len(st.body) == 1 and len(st.orelse) == 1):
+                continue
+            a, b = st.body[0], st.orelse[0]
+            if not all(isinstance(x, ast.Assign) and len(x.targets) == 1 and isinstance(x.targets[0], ast.Name) for x in (a, b)):
+                continue
+            if a.targets[0].id != b.targets[0].id or a.targets[0].id not in targets:
+                continue
+            block[i] = ast.copy_location(ast.Assign(targets=[ast.Name(id=a.targets[0].id, ctx=ast.Store())],
+                                                    value=ast.IfExp(test=st.test, body=a.value, orelse=b.value)), st)
+            n += 1
+    if n:
+        ast.fix_missing_locations(fn)
     return n
 
 
@@ -1128,6 +1591,16 @@ def snapshot(tree: ast.Module, dotted: str = "", is_pkg: bool = False) -> Dict[s
     out["<imports>"] = import_table(dotted, tree, is_pkg)
     out["<kwcalls>"] = keyword_calls(tree)
     out["<params>"] = {q: [a.arg for a in fn.args.args] for q, fn in _function_nodes(tree)}
+    out["<compares>"] = {q: sorted({ast.unparse(c) for c in ast.walk(fn) if isinstance(c, ast.Compare) and len(c.ops) == 1 and type(c.ops[0]) in _MIRROR})
+                         for q, fn in _function_nodes(tree)}
+    out["<compares>"] = {q: v for q, v in out["<compares>"].items() if v}
+    out["<returns>"] = {q: _own_returns(fn) for q, fn in _function_nodes(tree)}
+    out["<counterloops>"] = {q: counter_loops(fn) for q, fn in _function_nodes(tree) if counter_loops(fn)}
+    out["<lambdas>"] = {q: sorted({t.id for st in ast.walk(fn) if isinstance(st, ast.Assign) and isinstance(st.value, ast.Lambda) for t in st.targets if isinstance(t, ast.Name)})
+                        for q, fn in _function_nodes(tree)}
+    out["<lambdas>"] = {q: v for q, v in out["<lambdas>"].items() if v}
+    out["<nested>"] = {q: sorted({n.name for n in ast.walk(fn) if isinstance(n, ast.FunctionDef) and n is not fn}) for q, fn in _function_nodes(tree)}
+    out["<nested>"] = {q: v for q, v in out["<nested>"].items() if v}
     out["<globals>"] = sorted({t.id for st in tree.body if isinstance(st, ast.Assign) for t in st.targets if isinstance(t, ast.Name)}
                               | {st.target.id for st in tree.body if isinstance(st, ast.AnnAssign) and isinstance(st.target, ast.Name)})
     return out
